@@ -163,14 +163,7 @@ def run(ctx, progs):
                     ok = ok and src_ok
                     d = f"target = offset(addr)?.subslice(0, min(len, count)) [{ok}] on the caller's stream [{src_ok}]"
                 ctx.ob("R14.3.slice_form", b.key, ok, b.where(), d)
-        for nm, meth in (("read_exact_volatile_from", "ReadVolatile::read_exact_volatile"), ("write_all_volatile_to", "WriteVolatile::write_all_volatile")):
-            for b in prog.find(adt=SL, trait="bytes::Bytes", name=nm):
-                rt = b.return_terms()
-                ok = False
-                for _p, t in rt:
-                    if match(C(meth, P(3), OKP(C("VolatileMemory::get_slice", P(1), P(2), P(4)))), deep_strip(t), {}):
-                        ok = True
-                ctx.ob("R14.3.slice_exact_form", b.key, ok, b.where(), f"{meth.split('::')[-1]}(stream, &get_slice(addr, count)?) — all-or-error target, then the exact loop")
+        c03.rule_slice_exact(ctx, prog, "R14.3.slice_exact_form")
         # ------------------------------------------------------------ R14.4 guest forms (shared with C03)
         c03.rule_try_access(ctx, prog, eff)
         c03.rule_clients(ctx, prog, eff)
